@@ -7,6 +7,7 @@ import stat
 from . import gen
 
 FILETIME_EPOCH = 116444736000000000
+ROOT_MTIME_NS = 1_500_000_000_123_456_700
 
 
 def gen_tree(rng, maxdepth=5, nmax=10, name_style=None, links=True, block=32768, maxlen=20000, deref_safe=False):
@@ -104,6 +105,17 @@ def build_tree(root, entries):
             continue
         p = os.path.join(root, e["path"])
         os.utime(p, ns=(e["mtime_ns"], e["mtime_ns"]))
+    for e in entries:
+        if e["kind"] == "link":
+            # a link's own lstat times are archived too: fix them (the wall clock must not reach the archive bytes)
+            os.utime(os.path.join(root, e["path"]), ns=(ROOT_MTIME_NS, ROOT_MTIME_NS), follow_symlinks=False)
+    # creating links touched their parent directories: set the directory times again, deepest first
+    for e in sorted(entries, key=lambda e: -e["path"].count("/")):
+        if e["kind"] == "dir":
+            os.utime(os.path.join(root, e["path"]), ns=(e["mtime_ns"], e["mtime_ns"]))
+    # the root itself becomes a member of the archive (writeall): give it a fixed mode and time, not the wall clock's
+    os.chmod(root, 0o755)
+    os.utime(root, ns=(ROOT_MTIME_NS, ROOT_MTIME_NS))
 
 
 def make_removable(root):
